@@ -131,7 +131,12 @@ func (x *Exec) divHints(a, c, quo *smt.Term) {
 		zero := x.b.Int(0)
 		ante := append(append([]*smt.Term{}, eqs...), x.b.Cmp(">", c, zero), x.b.Cmp(">=", kq, zero), x.b.Cmp("<=", zero, rest), x.b.Cmp("<", rest, c))
 		concl := x.b.And(x.b.Cmp(">=", a, zero), x.b.Eq(x.b.App("div", "Int", a, c), kq), x.b.Eq(x.b.App("mod", "Int", a, c), rest))
-		x.axiom(x.b.Implies(x.b.And(ante...), concl))
+		hint := x.b.Implies(x.b.And(ante...), concl)
+		x.axiom(hint)
+		if x.hintDiv == nil {
+			x.hintDiv = map[int]int{}
+		}
+		x.hintDiv[hint.ID] = x.b.App("div", "Int", a, c).ID
 		if emitted == 0 {
 			x.divAlias[quo.ID] = kq
 			x.divRest[[2]int{a.ID, c.ID}] = rest
